@@ -137,7 +137,10 @@ class AppRun:
                             "trace": r.random() < 0.15,
                             # descriptor numbers: ordinary, 0 (a daemon that closed its standard streams), above 1024; a transport whose
                             # recv() returns bytearray
-                            "fd_base": r.choice([10, 10, 10, 0, 1100]), "bytearray_recv": r.random() < 0.12}
+                            "fd_base": r.choice([10, 10, 10, 0, 1100]), "bytearray_recv": r.random() < 0.12,
+                            # the application asks the kernel for a receive timeout of its own (sockopt SO_RCVTIMEO): pauses inside a
+                            # frame then surface as EAGAIN on a blocking socket
+                            "rcvtimeo": r.random() < 0.15}
             first_ok = bool(plan) and plan[0].get("outcome") == "ok" and plan[0].get("tls_error") is None and plan[0].get("response") is None
             if self.ambient["assign"] == "in-on_open" and ((raising and "on_open" in raising) or not first_ok):
                 # callbacks installed from on_open exist only once a connection has been opened
@@ -302,6 +305,10 @@ class AppRun:
             self.build()
         S = sched.CURRENT
         self.started_at = S.now
+        if self.ambient is not None and self.ambient.get("rcvtimeo") and "sockopt" not in kw:
+            import socket as _so
+            import struct as _st
+            kw = dict(kw, sockopt=((_so.SOL_SOCKET, _so.SO_RCVTIMEO, _st.pack("ll", 0, 200000)),))
         try:
             self.ret = self.app.run_forever(**kw)
         except sched.SimAbort:
